@@ -23,6 +23,7 @@ def tokk(tier, quick, thorough):
 def parse_stream(tier, rng, kinds=('g', 't'), tok_q=None, tok_t=None, nspell=(20000, 300000), ncorpus=(3000, 60000), nfault=(0, 0)):
     q = tier == 'quick'
     yield from gens.gen_corpus(rng, ncorpus[0] if q else ncorpus[1], kinds)
+    yield from gens.gen_slot(tuple(k for k in kinds if k in 'gt'))
     yield from gens.gen_tok(tok_q if q else tok_t, kinds)
     yield from gens.gen_spell(rng, nspell[0] if q else nspell[1], kinds)
     if nfault[0 if q else 1]:
@@ -127,8 +128,8 @@ def c03_sel(c, p):
     return p[0]
 PROPS['C03'] = dict(
     accepts=lambda c: c[0] in 'PSB',
-    gen=lambda tier, rng: chain(gens.gen_byte(pairs=True, kinds=('g',)), gens.gen_byte(pairs=False, kinds=('t', 's', 'b')),
-                                gens.gen_build(rng, Q(tier, 20000, 300000), 1), gens.gen_spell(rng, Q(tier, 20000, 200000), ('g', 't'))),
+    gen=lambda tier, rng: chain(gens.gen_byte(pairs=True, kinds=('g',)), gens.gen_byte(pairs=False, kinds=('t', 's', 'b')), gens.gen_types(),
+                                gens.gen_build(rng, Q(tier, 20000, 300000), 1, ('g', 't', 's', 'b', 'o')), gens.gen_spell(rng, Q(tier, 20000, 200000), ('g', 't', 's'))),
     compare=impl_accepts(c03_sel), exhaustive=False,
     rule='exhaustive: every ASCII byte and every ASCII pair (plus 2-, 3-, 4-byte scalars) in each of the 5 component positions through the builder; '
          'random builder sequences and parsed spellings; accessors and canonical string compared, and an independent renderer of the documented shape in the oracle',
@@ -139,7 +140,7 @@ def c04_sel(c, p):
 PROPS['C04'] = dict(
     accepts=lambda c: c[0] in 'PSBH',
     gen=lambda tier, rng: chain(parse_stream(tier, rng, ('g', 't', 's'), {'head': 3, 'path': 3, 'qual': 3, 'sub': 3}, {'head': 4, 'path': 4, 'qual': 4, 'sub': 4}, (15000, 200000), (2000, 30000)),
-                                gens.gen_build(rng, Q(tier, 30000, 400000), 1, ('g', 't', 's', 'b', 'o')), gens.gen_shape(rng, Q(tier, 3000, 50000))),
+                                gens.gen_build(rng, Q(tier, 30000, 400000), 1, ('g', 't', 's', 'b', 'o')), gens.gen_types(), gens.gen_shape(rng, Q(tier, 3000, 50000))),
     compare=impl_accepts(c04_sel),
     rule='parser streams, builder call sequences for String / Cow borrowed / Cow owned / SmallString / PackageType, and the family of user-written shapes '
          '(3 conversions x 3 type renderings x 29 hook programs); the value handed out compared; invariant evaluated by the oracle on every value',
@@ -147,7 +148,7 @@ PROPS['C04'] = dict(
 # ------------------------------------------------------------------ C05
 PROPS['C05'] = dict(
     accepts=lambda c: c[0] in 'PSX' and kind_of(c) in 'gt',
-    gen=lambda tier, rng: chain(gens.gen_fault(rng, Q(tier, 60000, 600000)), gens.gen_utf8(Q(tier, 3, 4), ('g',)), gens.gen_tok(Q(tier, TOK_Q, TOK_T), ('g', 't')), gens.gen_corpus(rng, Q(tier, 3000, 50000), ('g', 't')),
+    gen=lambda tier, rng: chain(gens.gen_fault(rng, Q(tier, 60000, 600000)), gens.gen_utf8(Q(tier, 3, 4), ('g',)), gens.gen_slot(('g', 't')), gens.gen_tok(Q(tier, TOK_Q, TOK_T), ('g', 't')), gens.gen_corpus(rng, Q(tier, 3000, 50000), ('g', 't')),
                                 gens.gen_spell(rng, Q(tier, 5000, 50000))),
     project=both(err_class),
     rule='legal spellings with exactly one injected fault of each listed kind (13 kinds, every spelling of the fault incl. 12 invalid UTF-8 patterns) with the expected error carried; '
@@ -193,7 +194,7 @@ PROPS['C06'] = dict(
     gen=lambda tier, rng: chain(gens.gen_tok(Q(tier, {'head': 3, 'path': 3, 'qual': 3, 'sub': 3}, TOK_T), ('g', 't')), gens.gen_fault(rng, Q(tier, 10000, 100000)),
                                 gens.gen_corpus(rng, Q(tier, 3000, 50000)), gens.gen_build(rng, Q(tier, 15000, 200000), 1, ('g', 't', 's', 'b', 'o')),
                                 gens.gen_qops(rng, Q(tier, 3000, 50000)), gens.gen_cs(rng, Q(tier, 3000, 50000)), gens.gen_pt(rng, 500, 2), gens.gen_comb(rng, 500),
-                                c06_odd(rng), c06_long(rng, Q(tier, 0, 60))),
+                                c06_odd(rng), gens.gen_types(), gens.gen_slot(('g', 't')), gens.gen_shape(rng, 500), c06_long(rng, Q(tier, 0, 60))),
     project=c06_proj,
     rule='every case of every other stream runs under catch_unwind in a build with overflow checks and debug assertions; the observable is where PANIC occurs; '
          'documented panics (Index of an absent key, insert_typed with an invalid KEY, Display of an invalid user type) are predicted by the model',
@@ -306,7 +307,7 @@ def c12_purls(rng, n):
         yield f'Q tC:{ops},tG'
 PROPS['C12'] = dict(
     accepts=lambda c: c[0] in 'CcPSBQ',
-    gen=lambda tier, rng: chain(gens.gen_cs(rng, Q(tier, 30000, 400000)), c12_purls(rng, Q(tier, 10000, 100000))),
+    gen=lambda tier, rng: chain(gens.gen_cs(rng, Q(tier, 30000, 400000)), c12_purls(rng, Q(tier, 10000, 100000)), gens.gen_slot(('g',))),
     compare=c12_compare,
     rule='checksum operation sequences (insert / insert_raw / remove over 15 algorithm spellings incl. case variants, titlecase letters, empty and non-ASCII), texts, '
          'PURLs and builders carrying the same entry set in random order and case; entries, canonical text, parse-back and typed decode compared; '
@@ -318,7 +319,7 @@ def c13_gen(tier, rng):
         a = l.split(' ')
         yield l
         yield ' '.join([a[0], 's'] + a[2:])
-    for l in gens.gen_build(rng, Q(tier, 20000, 200000), 1, ('g',)):
+    for l in chain(gens.gen_types(('g',)), gens.gen_build(rng, Q(tier, 20000, 200000), 1, ('g',))):
         a = l.split(' ')
         yield l
         for k in 'sbo': yield ' '.join([a[0], k] + a[2:])
@@ -424,7 +425,7 @@ PROPS['C17'] = dict(
     features=FEATS,
     gen=lambda tier, rng: chain(gens.gen_tok(Q(tier, {'head': 3, 'path': 3, 'qual': 3, 'sub': 3}, TOK_T), ('g', 's', 't')), gens.gen_spell(rng, Q(tier, 20000, 200000), ('g', 's', 't')),
                                 gens.gen_fault(rng, Q(tier, 10000, 100000)), gens.gen_build(rng, Q(tier, 20000, 200000), 1, ('g', 's', 'b', 'o', 't')),
-                                gens.gen_qops(rng, Q(tier, 2000, 20000)), gens.gen_cs(rng, Q(tier, 2000, 20000))),
+                                gens.gen_qops(rng, Q(tier, 2000, 20000)), gens.gen_cs(rng, Q(tier, 2000, 20000)), gens.gen_types(), gens.gen_slot(('g', 's', 't')), gens.gen_utf8(2, ('g', 's'))),
     compare=c17_compare, extra=c17_extra,
     rule='one deterministic stream (token language, seeded spellings, faults, builder, qualifier and checksum sequences) run through the harness built with '
          '{default}, {no features}, {package-type}, {default+serde}; every transcript compared line by line with the default one and with the extracted model '
